@@ -63,6 +63,7 @@ structure Node where
   hasSnp : Bool := false      -- the shard knows the SnapShotter (set by the first replicated write of this life)
   pending : List (Nat × Nat) := []   -- DataCommittedC: (propose seq, ghost writer uid)
   nextSeq : Nat := 0
+  replayQ : List Nat := []    -- entries read back by RaftNode.replay that readReplayForReplication has not applied yet
   -- ghost --------------------------------------------------------------------------------
   gF : Nat := 0               -- the data files hold exactly the entries ≤ gF
   gI : Nat := 0               -- files + table being flushed hold exactly the entries ≤ gI
@@ -187,6 +188,8 @@ inductive Op where
   | truncPropose (forced : Bool) (ms : List (Nat × Nat))   -- deleteEntryLog on the leader
   | truncBySize (n : Nat)                       -- deleteEntryLogBySize with the size limit exceeded
   | kill (n : Nat) | restart (n : Nat)
+  | restartLate (n : Nat)                       -- restart, the replayed entries not applied yet (the commit loop already runs)
+  | replayLate (n : Nat)                        -- readReplayForReplication applies them now
   | raftLead (l : Nat)                          -- l wins a raft election
   | metaDown (n : Nat) | metaUp (n : Nat)
   | elect                                       -- ts-meta: electRgMaster after the master failed
@@ -363,7 +366,7 @@ def doTruncBySize (s : State) (n : Nat) : Option State :=
   | none => none
 
 def killNode (x : Node) : Node :=
-  { x with up := false, imm := [], mem := [], pending := [], hasSnp := false, flag := true }
+  { x with up := false, imm := [], mem := [], pending := [], hasSnp := false, flag := true, replayQ := [] }
 
 def doKill (s : State) (n : Nat) : Option State :=
   match s.nodes[n]? with
@@ -382,11 +385,27 @@ def restartNode (clog : List Ent) (bounds : List Nat) (x : Node) : Node :=
   let replayed := if r.1 < x.first || r.2 > x.last + 1 then []   -- ErrCompacted / ErrUnavailable: logged, nothing replayed
     else (idxRange r.1 r.2).filter (fun i => isWrite clog i && !inHole x.holes i)
   { x with up := true, life := x.life + 1, pub := x.hsCommit, applied := x.hsCommit, sc := x.snapIdx,
-           flag := true, hasSnp := false, pending := [], nextSeq := 0, imm := [], mem := replayed }
+           flag := true, hasSnp := false, pending := [], nextSeq := 0, imm := [], mem := replayed, replayQ := [] }
 
 def doRestart (s : State) (n : Nat) : Option State :=
   match s.nodes[n]? with
   | some x => if !x.up then some (setNode s n (restartNode s.clog s.bounds x)) else none
+  | none => none
+
+/-- startRaftNode starts the commit loop (`go readCommitFromRaft`) before the caller applies the
+replayed entries (`readReplayForReplication`): entries committed meanwhile may be applied first -/
+def restartNodeLate (clog : List Ent) (bounds : List Nat) (x : Node) : Node :=
+  let y := restartNode clog bounds x
+  { y with mem := [], replayQ := y.mem }
+
+def doRestartLate (s : State) (n : Nat) : Option State :=
+  match s.nodes[n]? with
+  | some x => if !x.up then some (setNode s n (restartNodeLate s.clog s.bounds x)) else none
+  | none => none
+
+def doReplayLate (s : State) (n : Nat) : Option State :=
+  match s.nodes[n]? with
+  | some x => if x.up then some (setNode s n { x with mem := x.mem ++ x.replayQ, replayQ := [] }) else none
   | none => none
 
 def doRaftLead (s : State) (l : Nat) : Option State :=
@@ -431,6 +450,8 @@ def step (s : State) : Op → Option State
   | .truncBySize n => doTruncBySize s n
   | .kill n => doKill s n
   | .restart n => doRestart s n
+  | .restartLate n => doRestartLate s n
+  | .replayLate n => doReplayLate s n
   | .raftLead l => doRaftLead s l
   | .metaDown n => doMetaDown s n
   | .metaUp n => doMetaUp s n
